@@ -100,6 +100,12 @@ class Ctx:
             name = model.dotted(d.func if isinstance(d, model.ast.Call) else d) or "?"
             if name in ("staticmethod", "classmethod", "property") or name.split(".")[-1] in ("setter", "getter", "deleter"):
                 continue
+            try:
+                from .rules import transparent_decorator
+                if transparent_decorator(self.repo, f._module, d):
+                    continue        # the wrapper calls through once with the same arguments and returns the result unchanged
+            except Exception:
+                pass
             if not self._unwrapped_rule:
                 self._unwrapped_rule = True
                 self.rule("T0-wrapped", "functions the rules are anchored in carry no decorator other than staticmethod/classmethod/property")
